@@ -77,6 +77,7 @@ def run(ck):
     ck.configs.add("K1")
     from .. import linear as _lin
     ck.floor("SIB/same-terms-same-threshold", _lin.same_threshold(ck, P, [f for f in sorted(P.fns.values(), key=lambda f: f.path) if f.path.startswith(Z + "inflate::")]), 1)
+    ck.floor("PAIR/second-level-bits", _lin.second_level_bits(ck, P, [f for f in sorted(P.fns.values(), key=lambda f: f.path) if f.path.startswith(Z + "inflate::")]), 3)
     n = decoders.check_rejections(ck, P, "ATOM/rejection")
     ck.floor("ATOM/rejection", n, 40)
     decoders.check_table_fields(ck, P, "ATOM/header-fields")
